@@ -176,36 +176,38 @@ class UnifiedRTFEncoder(EncodingStrategy):
 
         # 3. Standard Pipeline
         color_service.set_document_context(document)
+        try:
+            page_rtf_chunks = self._encode_body_section(
+                document, document.df, document.rtf_body
+            )
 
-        page_rtf_chunks = self._encode_body_section(
-            document, document.df, document.rtf_body
-        )
-
-        # F. Assembly
-        result = "\n".join(
-            [
-                item
-                for item in [
-                    self.encoding_service.encode_document_start(),
-                    self.encoding_service.encode_font_table(),
-                    self.encoding_service.encode_color_table(document),
-                    "\n",
-                    self.encoding_service.encode_page_header(
-                        document.rtf_page_header, method="line"
-                    ),
-                    self.encoding_service.encode_page_footer(
-                        document.rtf_page_footer, method="line"
-                    ),
-                    self.encoding_service.encode_page_settings(document.rtf_page),
-                    "\n".join(page_rtf_chunks),
-                    "\n\n",
-                    "}",
+            # F. Assembly
+            result = "\n".join(
+                [
+                    item
+                    for item in [
+                        self.encoding_service.encode_document_start(),
+                        self.encoding_service.encode_font_table(),
+                        self.encoding_service.encode_color_table(document),
+                        "\n",
+                        self.encoding_service.encode_page_header(
+                            document.rtf_page_header, method="line"
+                        ),
+                        self.encoding_service.encode_page_footer(
+                            document.rtf_page_footer, method="line"
+                        ),
+                        self.encoding_service.encode_page_settings(document.rtf_page),
+                        "\n".join(page_rtf_chunks),
+                        "\n\n",
+                        "}",
+                    ]
+                    if item is not None
                 ]
-                if item is not None
-            ]
-        )
+            )
+        finally:
+            # Never leak this document's colors into later encodes
+            color_service.clear_document_context()
 
-        color_service.clear_document_context()
         return result
 
     def _apply_data_post_processing(self, pages, processed_df, rtf_body):
